@@ -13,7 +13,8 @@ CLAIMED = {
         "is executed on the real classes (shared and non-shared) and every recorded history is validated by TLC against the "
         "same operators (TraceCache.tla): result and all non-perturbing observations after every operation.",
    note="Trusted: TLC, JSON trace encoding, the ~100-line driver that calls the public cache API. Disk ctimes are spaced by the "
-        "harness. Multi-process interleavings are explored only at lock granularity (CacheConc part).",
+        "harness. Multi-process interleavings are explored only at lock granularity (CacheConc part)."
+        " None (NoneV) is among the stored values.",
    technique="TLA+ model (Cache.tla) checked by TLC; TLC-exported op sequences replayed on the real classes; recorded "
              "histories validated by TLC trace spec"),
  "C02": dict(
@@ -25,7 +26,8 @@ CLAIMED = {
         "variants; arg_combinations must list only valid cuts; all recorded histories (begin/call/return/raise events with "
         "arguments and values) plus random DAGs up to 6 functions are validated by TLC (TracePipelineCall.tla).",
    note="Trusted: TLC, the term encoding, build.py (description -> PipeFunc). Keywords shadowed by a bound value are a stated "
-        "don't-care.",
+        "don't-care."
+        " Random DAGs also carry defaults on produced parameters, custom output_pickers and post_execution_hooks (TracePipelineCall.THook: the hook fires once per execution with the function's own result and kwargs). Growth beyond the property: derived views under mutation (PipelineViews / TracePipelineViews).",
    technique="TLA+ spec of call semantics checked by TLC; universe export + replay into Pipeline; TLC trace validation"),
  "C01": dict(
    category="model_checking", design_ref="6 C01",
@@ -37,7 +39,8 @@ CLAIMED = {
         "with list and ndarray inputs; TLC validates each recorded run against MapRun/MapDenote (TraceMapRun): the sliced "
         "kwargs of every invocation, exactly-once, inputs-complete, Result.output and load_outputs equal to the denotation.",
    note="Trusted: TLC, term/JSON encoding, build.py, pmap.py. Values are opaque terms (no dtype coercion). zarr absent. "
-        "Bounds: rank<=3, sizes<=3 (universe sizes<=2).",
+        "Bounds: rank<=3, sizes<=3 (universe sizes<=2)."
+        " Internal shapes are supplied three ways (declared, passed to map, a wrong declaration overridden by map); some multi-output functions return a mapping picked by a custom output_picker.",
    technique="TLA+ denotation + run state machine; TLC universe export; TLC trace validation of real map runs"),
  "C03": dict(
    category="model_checking", design_ref="6 C03",
@@ -48,7 +51,8 @@ CLAIMED = {
         "the script and TLC validates each recorded run (results and reloaded outputs equal the denotation). Real thread and "
         "process pools (incl. per-output executors) with seeded delays are sampled and validated the same way.",
    note="Exact schedule control only for the thread-based controllable executor; real pools are sampled; SLURM executors "
-        "not exercised. Events are ordered by the gate lock / an O_APPEND log, never by wall clock.",
+        "not exercised. Events are ordered by the gate lock / an O_APPEND log, never by wall clock."
+        " Partial-run (fixed_indices) + resume histories also go through real thread/process pools on every storage.",
    technique="TLC-enumerated schedules replayed through a controllable executor; TLC trace validation"),
  "C15": dict(
    category="model_checking", design_ref="6 C15",
@@ -60,7 +64,8 @@ CLAIMED = {
         "and compare every ordered pair; memoize, cached pipeline calls and cached map are driven with the same pairs.",
    note="Trusted: TLC, the abstract->Python value encoder, Python's own ==. Don't-cares: numerically equal scalars of "
         "different numeric type, array typecode / deque.maxlen / default_factory, pickle-fallback objects with differing "
-        "pickles, pickle bytes of as-is frozensets.",
+        "pickles, pickle bytes of as-is frozensets."
+        " Also: memoize call keys (Call values, binding rules, MemoTotal/MemoSound/MemoComplete; universe closed under packing f(t, d) / f(*t, **d)).",
    technique="TLA+ value/key model checked by TLC; universe export; pairwise conformance in two interpreters"),
  "C05": dict(
    category="model_checking", design_ref="6 C05",
@@ -73,7 +78,8 @@ CLAIMED = {
         "(run, interrupt with what is completely stored, resumed run with results) is validated by TLC against MapRun: "
         "resumed results equal the denotation and nothing completely stored is recomputed.",
    note="Crash = death of the sequential process between OS-level operations (short writes included); no fsync/reordering. "
-        "Stored = unpicklable file, observed independently of pipefunc. Process-pool runs are not crashed.",
+        "Stored = unpicklable file, observed independently of pipefunc. Process-pool runs are not crashed."
+        " Resumed runs also go through real thread/process pools; forked children run in their own process group (stragglers are killed).",
    technique="TLA+ crash model checked by TLC; fs-trace validation; exhaustive crash-point replay validated by TLC"),
  "C08": dict(
    category="model_checking", design_ref="6 C08",
@@ -97,7 +103,8 @@ CLAIMED = {
         "MC_MapRun scenarios x file/dict/shared-memory storage, uniform and per-output mixes, plus a slice of the "
         "MC_MapDenote universe.",
    note="Serialisation fidelity of arbitrary user objects is cloudpickle's business; values are terms. load_xarray_dataset is "
-        "covered by C19.",
+        "covered by C19."
+        " Also: the map_async entry (incl. cleanup=False into a new folder) and sessions (parts, resume through pools) before the reloads.",
    technique="TLC trace validation of run + reload histories recorded across processes"),
  "C16": dict(
    category="model_checking", design_ref="6 C16",
@@ -110,7 +117,8 @@ CLAIMED = {
         "(TypeError vs success, validate_type_annotations on/off). 70 literal triples of tests/test_typing.py calibrate the "
         "reference (disagreement = exit 2).",
    note="Trusted: TLC, the annotation materialiser (exec'd signatures). Forward references, numpy dtypes and user generics "
-        "are outside the grammar.",
+        "are outside the grammar."
+        " Also: consumers with several array inputs (NetEdges, LawViaLocal, LawEdgewise; 43 sibling shapes).",
    technique="TLA+ subtype relation checked by TLC; universe export compared against is_type_compatible and Pipeline()"),
  "C20": dict(
    category="model_checking", design_ref="6 C20",
@@ -121,7 +129,8 @@ CLAIMED = {
         "the laws over TLA+-defined universes and exports cases; the real Resources API is run on every case with a deep "
         "snapshot comparison of every operand; recorded histories are validated by TLC (TraceResources.tla).",
    note="Don't-cares: with_defaults across exclusive fields may raise, extra_args/parallelization_mode merging, ties between "
-        "equal sizes/durations, combine_max result fields the property does not name.",
+        "equal sizes/durations, combine_max result fields the property does not name."
+        " Also: explicit wall-time field weights and a format-free ordering law over time strings around the day boundaries (TimeXAdequate checked by TLC).",
    technique="TLA+ resource algebra checked by TLC; universe export + history trace validation"),
  "C06": dict(
    category="model_checking", design_ref="6 C06",
@@ -148,7 +157,8 @@ CLAIMED = {
         "earlier-generation results of file storage still loadable = denotation); ErrorSnapshot.reproduce() before and after "
         "save/load must raise the same exception. Call side: random DAGs with one failing function, TracePipelineFail.tla.",
    note="Liveness in the code is a 600 s watchdog; in the model a TLC liveness check. Loadability after a failure is only "
-        "claimed for file storage (memory storages persist at the end of a run by design).",
+        "claimed for file storage (memory storages persist at the end of a run by design)."
+        " Also: two failures on one pipeline object (call and map side; kwargs-dependent exception args; one shared exception instance); the ErrorSnapshot observation is part of the raise event judged by TLC.",
    technique="TLC-enumerated failure schedules replayed via controllable executor; TLC trace validation; TLC liveness check"),
  "C17": dict(
    category="model_checking", design_ref="6 C17",
@@ -160,7 +170,8 @@ CLAIMED = {
         "generate_sweep / filtered_sweep / count_sweep and compared (order where fixed, multiset otherwise).",
    note="Don't-cares: order with non-item-order dims, Sweep({}) as a product operand, constants never override item keys, "
         "mismatched zips only checked to raise. Known findings F21 (product loses a later operand's zip), F71 (filtered_sweep "
-        "keeps duplicates for repeated values).",
+        "keeps duplicates for repeated values)."
+        " Also: sum expressions of any nesting (+, combine, MultiSweep(...): LawSumExpr) and object histories of sums (LawHistory: no existing object changes).",
    technique="TLA+ sweep algebra checked by TLC; exhaustive universe export compared against the sweep API"),
  "C19": dict(
    category="model_checking", design_ref="6 C19",
@@ -173,7 +184,8 @@ CLAIMED = {
         "xarray_dataset_from_results and load_xarray_dataset are projected and compared with the export and with each other "
         "(identical), selections are executed. Seeded random pipelines go through the same model.",
    note="xarray's own semantics (merge, sel) are trusted. Don't-cares: per-variable vs per-axis index naming after the merge, "
-        "arrays produced by functions without MapSpec, tuple-valued coordinates selected by value.",
+        "arrays produced by functions without MapSpec, tuple-valued coordinates selected by value."
+        " Also: axes fed by several sources in every order (LawSources, LawSourceOrder).",
    technique="TLA+ labelling model checked by TLC; universe export compared against real xarray datasets"),
  "C11": dict(
    category="model_checking", design_ref="6 C11",
@@ -186,7 +198,8 @@ CLAIMED = {
         "non-computable requests rejected naming a missing name). Random DAGs and mapped pipelines with supplied array "
         "intermediates go through the same routes.",
    note="Don't-cares: provided names no needed function reads (tests pin 'Got extra inputs'), a provided output of a tuple "
-        "producer whose sibling is still needed, rejections with both surplus and missing names.",
+        "producer whose sibling is still needed, rejections with both surplus and missing names."
+        " Also: selection histories on one pipeline object (update_defaults on a member / drop between requests) and the map_async route.",
    technique="TLA+ needed-set semantics checked by TLC; universe export; TLC trace validation of restricted runs"),
  "C12": dict(
    category="model_checking", design_ref="6 C12",
@@ -198,7 +211,8 @@ CLAIMED = {
         "a byte-for-byte snapshot of a prepared run folder: rejected iff not Valid, no user call, folder unchanged. Twelve "
         "pytest.raises examples of the repository calibrate the clauses; random larger mutants are judged by TLC trace "
         "validation.",
-   note="Exception class is not compared (the property says 'raises'); a different pipeline continuing a folder may be refused.",
+   note="Exception class is not compared (the property says 'raises'); a different pipeline continuing a folder may be refused."
+        " Also: call-style entries (call/run/func) for any requested output (ConstructionVerdictIsEntryBlind), ill-formed call mutants, cyclic examples.",
    technique="TLA+ validity clauses + prepare state machine checked by TLC; mutant universe export compared against the code"),
  "C07": dict(
    category="model_checking", design_ref="6 C07",
@@ -258,7 +272,8 @@ CLAIMED = {
         "that is defined for the pipeline is a violation.",
    note="Which functions simplify/nest merge is not modelled, only that retained outputs denote the same values. Legitimate "
         "refusals are stated in the spec. conservatively_combine, function-level update_renames, lazy pipelines and "
-        "resources attributes are not driven.",
+        "resources attributes are not driven."
+        " Also: update_renames(overwrite=True) (Rewrites.OverwriteRenames) and directed defaults-alias / overwrite histories.",
    technique="TLA+ rewrite-store model checked by TLC; rewrite histories on real pipelines validated by TLC"),
 }
 NOT_YET = "check not built yet in this round (specification module planned in DESIGN.md section 6)"
